@@ -21,7 +21,13 @@ def main():
     simcheck.run_family(ck, "resting_orders", scs, propcheck.c06, "C06", "resting")
     scs2 = [simgen.gen_scenario(rng, dict(opts, even=True, p_place=0.5)) for _ in range(n // 2)]
     simcheck.run_family(ck, "resting_orders_even_pence", scs2, propcheck.c06, "C06", "resting-even")
-    return ck.finish("scenarios on the real FlumineSimulation with cumulative traded ladders (1-2 increments per runner and update, repeats, unchanged ladders, volume going down, new prices), 1-3 strategies, isolation on/off, several resting orders per runner at equal/different prices and sides, queues captured at arrival; compared with the Coq model (both tie-breaks); independent ledger of traded volume built from the raw updates and checked against every new passive fragment")
+    # the documented way of customising simulated matching: a user-defined subclass of the simulation middleware registered with
+    # add_market_middleware before the simulated client is added - still exactly one matching pass per update
+    scs3 = [simgen.gen_scenario(rng, dict(opts, p_place=0.6)) for _ in range(n // 3)]
+    for sc in scs3:
+        sc["config"]["mw_subclass"] = True
+    simcheck.run_family(ck, "user_subclass_of_the_simulation_middleware", scs3, propcheck.c06, "C06", "subclass")
+    return ck.finish("scenarios on the real FlumineSimulation with cumulative traded ladders (1-2 increments per runner and update, repeats, unchanged ladders, volume going down, new prices), 1-3 strategies, isolation on/off, several resting orders per runner at equal/different prices and sides, queues captured at arrival, the stock simulation middleware or a user subclass of it registered first; compared with the Coq model (both tie-breaks); independent ledger of traded volume built from the raw updates and checked against every new passive fragment")
 
 
 def replay(path):
